@@ -109,6 +109,32 @@ STRENGTHENED = {
  'C19-J': 'missed at first: producers also emit nil maps (a JSON null payload)',
  'C20-I': 'missed at first: added the query kind `cep_all_rows` (ALL ROWS PER MATCH with MEASURES)',
  'C20-J': 'missed at first: added the query kind `array_fns` (array_remove / array_distinct / … over the caller\'s slices)',
+ 'C01-L': 'missed at first: a quarter of the event-time cases now emit their timestamps as float64 (what a JSON decoder produces)',
+ 'C02-K': 'missed by C02 at first (caught by the back-pressure cases of C01/C08/C10): added `c02bp` (burst of >100 new-maximum rows behind a slow sink, then silence, all three window kinds)',
+ 'C03-L': 'missed at first: an aggregate over an expression may now be named like an input column that another item aggregates',
+ 'C04-K': 'missed at first: added the stream `c04late` (late rows whose key is a prefix / suffix / the empty text of a delivered session\'s key; one result row per session batch)',
+ 'C04-L': 'missed at first: nth_value(id, 2) and percentile(id, 0) are selected in a third of the cases and must be computed per group',
+ 'C05-L': 'missed at first: a synchronous sink that panics on every second result is registered in front of the recording sink',
+ 'C07-L': 'missed at first: added the shape `agg_op_paren_lit` (`sum(v) * (2)`, `sum(v) / (2 + 2)`)',
+ 'C08-L': 'missed by C08 at first (caught by C02\'s busy-source probe): the probe now also runs inside C08 for sliding windows (`c08idle`)',
+ 'C09-L': 'missed at first: `c09prod` also runs with the default drop strategy (order per producer, deficit bounded by the drop counter)',
+ 'C10-L': 'missed at first: float64 timestamps (see C01-L)',
+ 'C11-L': 'missed at first: totality inputs now include statements cut off right after a word and followed by a lone opening quote / bracket',
+ 'C12-K': 'missed at first: text literals that differ only in blanks inside the quotes',
+ 'C13-K': 'missed at first: the LIKE keyword is written in lower / capitalised case in part of the cases',
+ 'C13-L': 'missed at first: added the stream `c13plain` (patterns without wildcards that contain backslashes, dots, parentheses)',
+ 'C14-K': 'missed at first: float64 partition keys that differ only beyond single precision',
+ 'C17-K': 'missed at first: a fifth of the cases carry WITH (STATETTL=\'1h\')',
+ 'C17-L': 'missed at first (the witness column takes a value on every row): added the stream `c17blank` without a witness, with rows that carry no reading',
+ 'C18-K': 'missed at first: half of the processing-time sliding batches use a 60 s window (Stop arrives before the first window ends)',
+ 'C18-L': 'missed at first: Stop-flush batches register faulty sinks in front of the recording sink',
+ 'C20-K': 'missed at first: added the query kinds `join_analytic` and `join_fn_key`',
+ 'C20-L': 'missed at first: type twins for an item evaluated after aggregation (`last_value(a) == 7`)',
+ 'C12-L': 'NOT caught by the quick tier: needs a flat AND/OR chain whose quoted literal contains a parenthesis, on a row whose other columns are all in the well-typed sub-domain; such chains and rows are generated now, the reference clause reaches them too rarely',
+ 'C11-K': 'NOT caught: HAVING without GROUP BY or a window is outside the statement families the generator writes',
+ 'C15-K': 'missed at first: a third of the WITHIN cases run on a 500 ns grid with WITHIN written as a fractional number of microseconds (`1.5 US`)',
+ 'C15-L': 'NOT caught: needs a wall-clock pause inside a match with a short WITHIN over sequence-number timestamps (the check avoids wall-clock dependence)',
+ 'C05-K': 'NOT caught: needs uint64 values near 2^64 (the unchanged engine already mis-decides those against integer literals, so the class is left out)',
 }
 rows = []
 n = caught = 0
@@ -152,7 +178,7 @@ new7 = '''## 7. Trusting the monitors: seeded changes
    worktree, and asked for two realistic changes (A, B) that break the property while the library still compiles
    and its suite still passes, each needing something specific to manifest, with a demonstration test.  A second
    round of fresh sub-agents (again only the property text, plus the one-line titles of A and B so as not to
-   repeat them) produced two more per property (C, D), a third round two more (E, F), a fourth (G, H) and a fifth (I, J).  Each
+   repeat them) produced two more per property (C, D), a third round two more (E, F), a fourth (G, H), a fifth (I, J) and a sixth (K, L).  Each
    change was kept only after it was confirmed here (`tools/seedcheck.py`, scratch worktree of /repo HEAD): the
    patch applies and builds, the demonstration FAILS with it and PASSES without it, the unedited suite passes
    with it; then the property's quick check was run against the patched tree (a scratch copy of /verif whose
